@@ -19,6 +19,7 @@ import zlib
 
 _installed = False
 _orig = {}
+_sample = {"every": 1, "count": 0}
 _st = {}
 MAX_BYTES = 400000          # a compilation with more constant bytes than this is left to the other stages (request size)
 
@@ -118,11 +119,13 @@ def _describe_sg(sg, arch):
     return f"1@{mu}@{words}@{';'.join(ops)}", sources, nbytes
 
 
-def install():
+def install(every=1):
+    """every = n: only every n-th compilation of a worker process is recorded (thorough tier: request volume)"""
     global _installed
     if _installed:
         return
     _installed = True
+    _sample["every"] = max(1, int(every))
     from ethosu.vela import compiler_driver, npu_serialisation as ns, tensor_allocation as ta, weight_compressor as wc
     from ethosu.vela.operation import Op
 
@@ -483,6 +486,10 @@ def _src_bytes(s):
 def extra(res):
     """worker side, after one compilation (res: pipeline.CompileResult)"""
     out = {"errors": list(_st["errors"]), "skipped": _st["skipped"], "model": [], "spec": [], "counts": {}}
+    _sample["count"] += 1
+    if _sample["every"] > 1 and _sample["count"] % _sample["every"] != 1:
+        _reset()
+        return None
     try:
         if res is None or res.status != "ok" or res.out_model is None or not _st["sgs"] or _st["skipped"]:
             return out
@@ -600,7 +607,13 @@ def _extra(res, out):
                 return k
         return 9
 
-    ins0 = eops[0][1]["inputs"]
+    # the memory tensors of the file are found by NAME (the order of the operands is what (c) judges)
+    by_kind = {}
+    for i in eops[0][1]["inputs"]:
+        by_kind.setdefault(fkind(sg0["tensors"][i]), i)
+    if not all(k in by_kind for k in (0, 1, 2, 3)):
+        raise Unsupported("the Ethos-U operator of the output file lacks a memory tensor (by name)")
+    ins0 = [by_kind[0], by_kind[1], by_kind[2], by_kind[3]]
     ft, st_, qt = sg0["tensors"][ins0[1]], sg0["tensors"][ins0[2]], sg0["tensors"][ins0[3]]
     file_flash = bytes(model["buffers"][ft["buffer"]] or b"")
     # (a) constants tensor of the file against the source constants
@@ -656,7 +669,10 @@ def _extra(res, out):
         out["spec"].append({"kind": "order", "line": f"serorder kinds={','.join(map(str, kinds))} regions={','.join(f'{r}:{k}' for r, k in regions)}",
                             "what": "operands of an Ethos-U operator of the output file (by tensor name suffix) and get_region of every memory type"})
     # the file's memory tensors are the real ones: payload and constants byte for byte, the scratch tensors without data
-    file_cmds = [bytes(model["buffers"][sg0["tensors"][op["inputs"][0]]["buffer"]] or b"") for _si, op, _m, _r in eops]
+    file_cmds = []
+    for _si, op, _m, _r in eops:
+        ci = next((i for i in op["inputs"] if fkind(sg0["tensors"][i]) == 0), op["inputs"][0])
+        file_cmds.append(bytes(model["buffers"][sg0["tensors"][ci]["buffer"]] or b""))
     real_cmds = [_u8(r["cmd"].values) for r in npu_recs]
     out["file"] = {"flash_same": file_flash == flash_vals, "cmds_same": sorted(file_cmds) == sorted(real_cmds),
                    "scratch_no_data": not model["buffers"][st_["buffer"]] and not model["buffers"][qt["buffer"]]}
@@ -722,6 +738,7 @@ def stage(ck, outs, prefix="serial_"):
 
     t0 = time.time()
     recs, owners, specs, sowners = [], [], [], []
+    file_bad = {}
     for o in outs:
         s = o.get("serial")
         if s is None and isinstance(o.get("extra"), dict):
@@ -742,10 +759,7 @@ def stage(ck, outs, prefix="serial_"):
         f = s.get("file") or {}
         for k in ("flash_same", "cmds_same", "scratch_no_data"):
             if not f.get(k, True):
-                ck.violation(f"serialisation: the memory tensors of the output file are not the serialised ones ({k} is false) "
-                             f"(network {o['idx']} {o['profile']} {o.get('opts')})",
-                             {"profile": o["profile"], "seed": o["seed"], "index": o["idx"], "opts": o.get("opts"), "network": o.get("desc"),
-                              "correspondence": "output file (plain walker) vs sg.flash_tensor / command_stream_tensor values"}, found_input=False)
+                file_bad.setdefault(k, []).append(o)
         for r in s["model"]:
             recs.append(r)
             owners.append(o)
@@ -781,6 +795,12 @@ def stage(ck, outs, prefix="serial_"):
             ck.violation(f"serialisation: {TITLES.get(kind, kind)}: {a[:400]} [{s['what']}] "
                          f"(network {o['idx']} {o['profile']} {o.get('opts')})",
                          rp(o, {"spec_request": s["line"][:3000], "verdict": a[:1000]}), found_input=True)
+    for k, l in file_bad.items():
+        o = next((x for x in l if (x["profile"], x["idx"], x["seed"]) in rejected), l[0])
+        ck.violation(f"serialisation: the memory tensors of the output file are not the serialised ones ({k} is false, {len(l)} compilation(s)) "
+                     f"(network {o['idx']} {o['profile']} {o.get('opts')})",
+                     rp(o, {"correspondence": "output file (plain walker) vs sg.flash_tensor / command_stream_tensor values"}),
+                     found_input=(o["profile"], o["idx"], o["seed"]) in rejected)
     disagreements = []
     kinds = {}
     nontrivial = set()
